@@ -219,6 +219,9 @@ func (n *Tree[V]) delNode(path string, matcher ValueMatcher[V], inStaticToken bo
 
 		if newSize == 0 {
 			n.backtrackingEnabled = true
+			// the names are those of the removed values. If kept, a later expression ending
+			// at this node with other wildcard names would be rejected as ambiguous.
+			n.wildcardKeys = nil
 		}
 
 		return oldSize != newSize
